@@ -3053,7 +3053,10 @@ namespace awkward {
               if (is_segment_done()) {
                 bytecodes_pointer_pop();
 
-                if (do_current_depth_ != 0  &&
+                // (not when the segment that ended is the outermost one of this
+                // invocation: a word 'call'ed while the program was paused)
+                if (recursion_current_depth_ != recursion_target_depth_top  &&
+                    do_current_depth_ != 0  &&
                     do_abs_recursion_depth() == recursion_current_depth_) {
                   // End one step of a 'do ... loop' or a 'do ... +loop'.
                   if (do_loop_is_step()) {
@@ -3203,7 +3206,10 @@ namespace awkward {
                 // As after_end_of_segment in a full run: leave the word's own
                 // segment, whether or not it has instructions left.
                 bytecodes_pointer_pop();
-                if (do_current_depth_ != 0  &&
+                // (not when the segment that ended is the outermost one of this
+                // invocation: a word 'call'ed while the program was paused)
+                if (recursion_current_depth_ != recursion_target_depth_top  &&
+                    do_current_depth_ != 0  &&
                     do_abs_recursion_depth() == recursion_current_depth_) {
                   // End one step of a 'do ... loop' or a 'do ... +loop'.
                   if (do_loop_is_step()) {
@@ -3844,7 +3850,10 @@ namespace awkward {
 
             // As after_end_of_segment in a full run: finishing the body of a
             // 'do' loop advances the loop.
-            if (do_current_depth_ != 0  &&
+            // (not when the segment that ended is the outermost one of this
+            // invocation: a word 'call'ed while the program was paused)
+            if (recursion_current_depth_ != recursion_target_depth_top  &&
+                do_current_depth_ != 0  &&
                 do_abs_recursion_depth() == recursion_current_depth_) {
               // End one step of a 'do ... loop' or a 'do ... +loop'.
               if (do_loop_is_step()) {
@@ -3867,7 +3876,10 @@ namespace awkward {
     after_end_of_segment:
       bytecodes_pointer_pop();
 
-      if (do_current_depth_ != 0  &&
+      // (not when the segment that ended is the outermost one of this
+      // invocation: a word 'call'ed while the program was paused)
+      if (recursion_current_depth_ != recursion_target_depth_top  &&
+          do_current_depth_ != 0  &&
           do_abs_recursion_depth() == recursion_current_depth_) {
         // End one step of a 'do ... loop' or a 'do ... +loop'.
         if (do_loop_is_step()) {
